@@ -4,6 +4,8 @@
 (*                                                                         *)
 (* IOEnv.TRACE_FILE is NDJSON, one session per line:                       *)
 (*   {"t": id, "events": [ {"ev": ...}, ... ]}                             *)
+(* A find_answer / solve event may carry "w": solutions supplied by the    *)
+(* driver, for programs too large to enumerate (SolverSM!FindVerdictW).    *)
 (* Every event is the return of one public call (harness/session.py).      *)
 (* The session machine is SolverSM; an event is accepted when the          *)
 (* corresponding SolverSM action, with the observed result bound, is       *)
@@ -55,21 +57,28 @@ TrAddKey ==
 TrFind ==
     /\ Ev.ev = "find_answer"
     /\ IF Ev.status # "ok" THEN Reject("find:raised-" \o Ev.exc)
-       ELSE LET v == FindVerdict(Prog(decl, cons), Ev.ret, EvSol(Ev)) IN
+       ELSE LET v == IF "w" \in DOMAIN Ev THEN FindVerdictW(Prog(decl, cons), Ev.ret, EvSol(Ev), Ev.w)
+                                            ELSE FindVerdict(Prog(decl, cons), Ev.ret, EvSol(Ev)) IN
             IF v # "ok" THEN Reject(v)
             ELSE FindAnswerWith(Ev.ret, EvSol(Ev)) /\ verdict' = "ok"
 
 TrSolve ==
     /\ Ev.ev = "solve"
     /\ IF Ev.status # "ok" THEN Reject("solve:raised-" \o Ev.exc)
-       ELSE LET v == SolveVerdict(Prog(decl, cons), keys, Ev.ret, EvSol(Ev)) IN
+       ELSE LET v == IF "w" \in DOMAIN Ev
+                     THEN SolveVerdictW(Prog(decl, cons), keys, Ev.ret, EvSol(Ev), Ev.w)
+                     ELSE SolveVerdict(Prog(decl, cons), keys, Ev.ret, EvSol(Ev)) IN
             IF v # "ok" THEN Reject(v)
             ELSE SolveWith(Ev.ret, EvSol(Ev)) /\ verdict' = "ok"
+
+(* setting an option of cspuz.config is a stuttering step of the session machine: *)
+(* no option may change what find_answer / solve must establish                  *)
+TrConfig == Ev.ev = "config" /\ UNCHANGED vars /\ verdict' = "ok"
 
 TraceNext ==
     /\ verdict = "ok" /\ k < Len(Traces[t].events)
     /\ k' = k + 1 /\ t' = t
-    /\ (TrDeclare \/ TrEnsure \/ TrAddKey \/ TrFind \/ TrSolve)
+    /\ (TrDeclare \/ TrEnsure \/ TrAddKey \/ TrFind \/ TrSolve \/ TrConfig)
 
 Terminal == verdict # "ok" \/ k = Len(Traces[t].events)
 
